@@ -3,6 +3,7 @@ package so
 import (
 	"crypto/sha256"
 	"crypto/sha512"
+	"encoding/base64"
 	"fmt"
 	"net/url"
 	"strings"
@@ -34,3 +35,6 @@ func Fingerprint(der []byte, alg string) (string, string) {
 	}
 	return strings.Join(parts, ":"), uri
 }
+
+// B64Decode decodes standard base64.
+func B64Decode(s string) ([]byte, error) { return base64.StdEncoding.DecodeString(s) }
